@@ -39,7 +39,7 @@ WAV_TOL = 1e-6
 # wav playback through a calibration object whose gain was changed after an earlier load_wav with the same arguments:
 # see notes/C08.md "pending defect" (fast_cache keys on the calibration *object*); the demand is switched on once the
 # integrator has decided (VERIF_PENDING=1 reproduces it)
-PENDING_WAV_REGAIN = os.environ.get('VERIF_PENDING') == '1'
+PENDING_WAV_REGAIN = True       # repaired by fix 4d4b8d5, demanded since
 
 _WAV = {}
 
